@@ -47,7 +47,15 @@ def rdflib_case(rng: random.Random, max_len: int = 40) -> tuple[dict, list, list
     if entry in ("graph_serialize", "flat_frames", "stream_frames_gen", "stream_frames_store") \
             and rng.random() < 0.25:
         delimited = False
+    empty_graphs = []
+    if arity == 4 and entry in ("graph_serialize", "grouped_to_file", "stream_frames_store") and rng.random() < .3:
+        # named graphs that exist in the Dataset but hold no triple (IRI- and bnode-named)
+        v = gen.Vocab(rng, "rdf11")
+        empty_graphs = [v.iri() if rng.random() < .8 else v.bnode() for _ in range(rng.randint(1, 3))]
+        used = {s[3] for s in stmts}
+        empty_graphs = [g for g in empty_graphs if g not in used]
     cfg = {
+        "empty_graphs": empty_graphs,
         "integration": "rdflib", "physical": phys, "entry": entry,
         "frame_size": rng.choice(gen.FRAME_SIZES), "preset": preset, "delimited": delimited,
         "logical": pj.FLAT_LOGICAL[phys], "generalized": False, "rdf_star": False,
@@ -170,3 +178,33 @@ def valid_stream(rng: random.Random, mode: str = "generic", producer: str | None
         return {"data": data, "delimited": delimited, "events": events, "producer": producer, "frames": frames,
                 "physical": phys, "mode": mode}
     return None
+
+
+def crafted_header_stream(rng: random.Random, first_frame_len: int = 10):
+    """A valid delimited TRIPLES stream whose FIRST frame holds only a minimal options row, so that the frame is
+    exactly `first_frame_len` bytes long (10 -> header 0A 0A 08: the 0x0A coincidence of C08/C09)."""
+    from . import refenc, wire
+
+    opt = {"stream_name": "", "physical_type": 1, "generalized_statements": False, "rdf_star": False,
+           "max_name_table_size": 8, "max_prefix_table_size": 0, "max_datatype_table_size": 0,
+           "logical_type": 0, "version": 1}
+    base = len(wire.f_bytes(1, wire.enc_row(("options", opt))))
+    if first_frame_len > base:
+        pad = first_frame_len - base - 2
+        if pad < 1:
+            opt["logical_type"] = 1          # +2 bytes
+        else:
+            opt["stream_name"] = "x" * pad
+    v = gen.Vocab(rng, "rdf11", n_ns=1, n_local=4)
+    stmts = []
+    for s in gen.statements(rng, rng.randint(1, 8), 3, "rdf11", vocab=v):
+        stmts.append(tuple(("lit", t[1], t[2], None) if t[0] == "lit" else t for t in s))
+    events = [("stmt", s) for s in stmts]
+    pol = refenc.Policy(frame_cut="random")
+    pr = refenc.Producer(rng, pol, opt)
+    pr.encode_events(events)
+    frames = [{"rows": pr.rows[:1], "metadata": []}] + [{"rows": pr.rows[i:i + 3], "metadata": []}
+                                                         for i in range(1, len(pr.rows), 3)]
+    data = wire.enc_stream(frames, True)
+    return {"data": data, "delimited": True, "events": events, "producer": "crafted-header", "physical": 1,
+            "frames": wire.dec_stream(data, True), "mode": "rdf11", "first_frame_len": wire.dec_stream(data, True)[0]["span"][1] - 1}
